@@ -55,7 +55,8 @@ void generate(sim::Rng &r, uint64_t seed, const std::string &tier, sim::Plan &p)
         else if (x < 66) key(K_BS); else if (x < 76) key(K_DEL); else if (x < 80) key(K_TAB);
         else { sim::Op op; op.kind = "key"; op.a = {K_CHAR, (long)r.below(sizeof(ALPHA) - 1)}; p.ops.push_back(op); }
       }
-      key(r.chance(800) ? K_ENTER : K_ENTER_LF);
+      if (r.chance(800)) { sim::Op op; op.kind = "key"; op.a = {K_ENTER, r.chance(500) ? 0 : r.range(1, 5)}; p.ops.push_back(op); }   // how the line ends: CR LF, CR NUL, bare CR, CR | NUL
+      else key(K_ENTER_LF);
     }
     int ns = (int)r.range(1, 8);
     for (int i = 0; i < ns; ++i) { sim::Op op; op.kind = "seg"; op.a = {r.chance(400) ? 1 : r.range(2, 12), r.chance(600) ? 0 : r.range(1, 3)}; p.ops.push_back(op); }
@@ -271,13 +272,31 @@ void execute(const sim::Plan &plan) {
     std::vector<const sim::Op *> keys, segs;
     for (const sim::Op &op : plan.ops) { if (op.kind == "key") keys.push_back(&op); else if (op.kind == "seg") segs.push_back(&op); }
     size_t ki = 0, si = 0;
+    std::string pending_carry;
     while (ki < keys.size()) {
       size_t n = keys.size() - ki; long dt = 0;
       if (!segs.empty()) { const sim::Op *sg = segs[si++ % segs.size()]; n = std::min<size_t>(n, (size_t)std::max(1L, sg->arg(0))); dt = std::max(0L, std::min(10L, sg->arg(1))); }
-      std::string bytes;
-      for (size_t k = ki; k < ki + n; ++k) { long kk = ((keys[k]->arg(0) % K_NKEY) + K_NKEY) % K_NKEY; bytes += encode_key(kk, keys[k]->arg(1)); model.key(kk, keys[k]->arg(1)); }
+      std::string bytes, carry;
+      for (size_t k = ki; k < ki + n; ++k) {
+        long kk = ((keys[k]->arg(0) % K_NKEY) + K_NKEY) % K_NKEY;
+        std::string enc = encode_key(kk, keys[k]->arg(1));
+        if (kk == K_ENTER) {
+          // the ways a client ends a line: CR LF, CR NUL, and — at the end of a segment — a bare CR, or CR with its NUL in the next segment
+          long v = ((keys[k]->arg(1) % 6) + 6) % 6;
+          bool last = k + 1 == ki + n;
+          // a bare CR directly followed by an LF keystroke is the byte sequence CR LF, i.e. one Enter for every segmentation: not generated
+          if (k + 1 < keys.size() && (((keys[k + 1]->arg(0) % K_NKEY) + K_NKEY) % K_NKEY) == K_ENTER_LF) v = 0;
+          if (v == 1) enc = std::string("\r\0", 2);
+          else if (v == 2 && last) enc = "\r";
+          else if (v == 3 && last && ki + n < keys.size()) { enc = "\r"; carry = std::string("\0", 1); }
+          else if (v == 5 && last && ki + n < keys.size()) { enc = "\r"; carry = "\n"; }
+        }
+        bytes += enc; model.key(kk, keys[k]->arg(1));
+      }
       ki += n;
       t += dt * 1000000;
+      if (!pending_carry.empty()) { bytes = pending_carry + bytes; pending_carry.clear(); }
+      pending_carry = carry;
       tl.at(t, [bytes] { client_send(0, bytes); sim::relevant(); });
     }
   } else {
